@@ -49,11 +49,43 @@ def impl_methods(F):
     return out
 
 
-WRITE_EV = {
-    "local": re.compile(r"LocalServer::(add_version_by_parent_version_id|set_latest_version_id)$"),
-    "cloud": re.compile(r"Service::(put|compare_and_swap)$"),
-    "git": re.compile(r"GitSyncServer::(add_version_by_parent_version_id|write_meta)$|GitCmd.*::stage_and_commit$|::stage_and_commit$"),
-}
+import roles
+
+_wcache = {}
+
+
+def is_write_event(F, be, e):
+    """role-based: does this call write the version store?  local: the callee executes a
+    modifying SQL statement; object store: Service::put / compare_and_swap; git: the callee's
+    cone writes a file or issues `git commit`"""
+    key = (id(F), be, e["callee"])
+    if key in _wcache:
+        return _wcache[key]
+    res = False
+    if be == "cloud":
+        res = any(re.search(r"Service::(put|compare_and_swap)$", n) for n in e["names"])
+    else:
+        hb = None
+        for n in e["names"]:
+            if n in F.bodies and n.startswith("server::"):
+                hb = F.real_body(n)
+        if hb is not None:
+            if be == "local":
+                res = any(roles.WRITE_SQL.search(sv) for _i, sv in roles.sql_in_body(F, hb))
+            else:
+                res = roles.cone_reaches(F, hb["path"], lambda t: any(re.search(r"^std::fs::write$|^serde_json::(ser::)?to_writer|std::fs::File::create", n) for n in call_names(t))) or (roles.norm(hb.get("owner_fn") or hb["path"]) in {roles.norm(x) for x in roles.git_cmd_fns(F, "commit")})
+    _wcache[key] = res
+    return res
+
+
+def parent_param(b):
+    """symbolic name of add_version's parent-version parameter (second parameter, whatever it is called)"""
+    ups = b.get("upvars") or []
+    if len(ups) >= 2:
+        return ("P", ups[1])
+    return ("P", "parent_version_id")
+
+
 PARENT = ("P", "parent_version_id")
 
 
@@ -98,12 +130,13 @@ def rule_P1(F, R):
         except Exception as e:
             R.violation("P1", b["owner_fn"], "table-extraction", str(e), where(b))
             continue
-        wre = WRITE_EV[be]
+        global PARENT
+        PARENT = parent_param(b)
         acc = rej = 0
         for p in paths:
             if p.end[0] != "return":
                 continue
-            writes = [e for e in p.events if any(wre.search(nm) for nm in e["names"])]
+            writes = [e for e in p.events if is_write_event(F, be, e)]
             nil = None
             last_cmp = None
             for (a, o, _bb) in p.atoms:
@@ -169,30 +202,32 @@ def rule_P2(F, R):
             fl = flow_of(b)
             n += 1
             f = st["r"]["fields"]
-            roles = {}
+            idroles = {}
             for name in ("version_id", "parent_version_id"):
                 op = st["r"]["ops"][f.index(name)]
-                sl = fl.slice_operand(op, stop=lambda t: any(x.endswith("get_uuid_header") for x in call_names(t)) or ((t.get("callee") or "") in F.bodies and (t.get("callee") or "").startswith("server::")))
+                uhf = roles.uuid_header_fn(F)
+                sl = fl.slice_operand(op, stop=lambda t: (uhf in call_names(t)) or ((t.get("callee") or "") in F.bodies and (t.get("callee") or "").startswith("server::")))
                 tags = set()
                 for r in sl.roots:
                     if r[0] in ("upvar", "param"):
                         nm = str(r[1]) if r[0] == "upvar" else (b["locals"][r[1]].get("name") or "")
                         fields = [str(e[2]) for e in r[2] if e[0] == "f"]
-                        tags.add("parent" if "parent_version_id" in " ".join([nm] + fields) else "other")
+                        pp = (b.get("upvars") or [None, None])[1] if b["path"].endswith("get_child_version::{closure#0}") and len(b.get("upvars") or []) > 1 else "parent_version_id"
+                        tags.add("parent" if ("parent_version_id" in " ".join([nm] + fields) or nm == pp) else "other")
                     elif r[0] in ("call", "callnode"):
                         t = c.term(r[1])
-                        if any(x.endswith("get_uuid_header") for x in call_names(t)):
+                        if uhf in call_names(t):
                             hs = const_strs(fl.slice_operand(t["args"][1]), F)
                             tags.add("parent" if "X-Parent-Version-Id" in hs else ("own" if "X-Version-Id" in hs else "header?"))
                         else:
                             fields = [str(e[2]) for e in r[3] if e[0] == "f"]
                             tags.add("parent" if fields and fields[-1] == "parent_version_id" else "own" if fields and fields[-1] == "version_id" else "stored")
-                roles[name] = tags
+                idroles[name] = tags
             w = where(b, sp=st["sp"])
-            if "parent" in roles["version_id"]:
+            if "parent" in idroles["version_id"]:
                 R.violation("P2", F.owner(bp), "child-id-from-parent", "GetVersionResult::Version.version_id is built from the parent version id: every client would loop on the same version", w)
-            elif "parent" not in roles["parent_version_id"] or "own" in roles["parent_version_id"]:
-                R.violation("P2", F.owner(bp), "parent-id-source", "GetVersionResult::Version.parent_version_id is built from %s" % sorted(roles["parent_version_id"]), w)
+            elif "parent" not in idroles["parent_version_id"] or "own" in idroles["parent_version_id"]:
+                R.violation("P2", F.owner(bp), "parent-id-source", "GetVersionResult::Version.parent_version_id is built from %s" % sorted(idroles["parent_version_id"]), w)
             else:
                 R.ok("P2", "Version{version_id <- child, parent_version_id <- parent}", w)
     R.floor("P2", "GetVersionResult::Version constructions", n, 5)
@@ -211,8 +246,9 @@ def rule_P2(F, R):
                 continue
             idv = holder[0][3][0][1]
             gen = idv[0] == "C" and idv[2].endswith("new_v4")
-            stored = [e for e in p.events if any(re.search(r"add_version_by_parent_version_id$", nm) for nm in e["names"]) and _has(e["args"], lambda z: z == idv)]
-            head = [e for e in p.events if any(re.search(r"set_latest_version_id$", nm) for nm in e["names"]) and _has(e["args"], lambda z: z == idv)]
+            wev = [e for e in p.events if is_write_event(F, be, e) and _has(e["args"], lambda z: z == idv)]
+            stored = wev[:1]
+            head = wev[1:2] if be == "local" else wev[:1]
             if be == "git":
                 head = [1] if _has(tuple(p.env.values()), lambda z: z[0] == "O" and any(k == (None, "latest_version") or k[1] == "latest_version" for (k, _x) in z[2])) or True else []
             if gen and stored and head:
@@ -304,7 +340,7 @@ def rule_P3(F, R):
                 hdr = None
                 if v[3][0][1][0] == "F" or v[3][0][1][0] == "C":
                     hh = []
-                    _has(v[3][0][1], lambda z: z[0] == "C" and z[2].endswith("get_uuid_header") and hh.append(z))
+                    _has(v[3][0][1], lambda z: z[0] == "C" and z[2] == roles.uuid_header_fn(F) and hh.append(z))
                     hdr = str(hh[0][3][1][1]).strip('"') if hh else None
                 if v[2] == "ExpectedParentVersion":
                     if conflict and hdr == "X-Parent-Version-Id":
@@ -334,9 +370,10 @@ def rule_P3(F, R):
             else:
                 R.violation("P3", b["owner_fn"], "response:%s" % m, "%s: 404 is not mapped to `%s` (%s)" % (m, "NoSuchVersion" if m == "get_child_version" else "None", problems), w)
     # snapshot urgency header table
-    b = F.bodies.get("server::sync::get_snapshot_urgency")
+    suf = roles.snapshot_urgency_header_fn(F)
+    b = F.bodies.get(suf) if suf else None
     if b is None:
-        R.missing("P3", "server::sync::get_snapshot_urgency")
+        R.missing("P3", "the HTTP helper (&Response) -> SnapshotUrgency")
         return
     rows = {}
     hdr = set()
@@ -372,6 +409,13 @@ def rule_A1_local(F, R):
     c = cfg_of(b)
     paths = [p for p in SymExec(b, c).run() if p.end[0] == "return"]
     n = 0
+    helpers_seen = set()
+
+    def opens_txn(e):
+        if re.search(r"Connection>?::transaction(_with_behavior)?$", e["callee"]):
+            return True
+        hb = F.real_body(e["callee"]) if e["callee"] in F.bodies and e["callee"].startswith("server::local") else None
+        return hb is not None and any(re.search(r"Connection>?::transaction(_with_behavior)?$", n_) for (_i, t_) in cfg_of(hb).calls() for n_ in call_names(t_)) and not is_write_event(F, "local", e) and "Transaction" in (hb.get("sig_out") or "")
     for p in paths:
         holder = []
         _has(p.ret, lambda z: z[0] == "A" and z[1].endswith("AddVersionResult") and z[2] == "Ok" and holder.append(z))
@@ -379,10 +423,15 @@ def rule_A1_local(F, R):
             continue
         n += 1
         w = where(b, p.blocks[-1])
-        tx = [e for e in p.events if re.search(r"LocalServer::txn$|Connection>?::transaction(_with_behavior)?$", e["callee"])]
+        tx = [e for e in p.events if opens_txn(e)]
         cm = [e for e in p.events if re.search(r"Transaction::<'.*>::commit$", e["callee"])]
-        rd = [e for e in p.events if e["callee"].endswith("get_latest_version_id")]
-        wr = [e for e in p.events if re.search(r"(add_version_by_parent_version_id|set_latest_version_id)$", e["callee"])]
+        rd = []
+        for e in p.events:
+            hb = F.real_body(e["callee"]) if e["callee"] in F.bodies and e["callee"].startswith("server::local") else None
+            if hb is not None and not is_write_event(F, "local", e) and any(re.search(r"^\s*SELECT", sv, re.I) for _i, sv in roles.sql_in_body(F, hb)):
+                rd.append(e)
+        wr = [e for e in p.events if is_write_event(F, "local", e)]
+        helpers_seen.update(e["callee"] for e in rd + wr)
         if len(tx) != 1:
             R.violation("A1", b["owner_fn"], "transaction-count", "the accept path of the local add_version opens %d transactions: a stop between them leaves a parent with a child that is not the latest (a second child is then accepted)" % len(tx), w)
             continue
@@ -396,12 +445,13 @@ def rule_A1_local(F, R):
         R.ok("A1", "accept path: txn -> read latest -> insert version -> set latest -> commit (one transaction)", w)
     R.floor("A1", "accept paths of the local add_version", n, 2)
     # helpers must not open/commit
-    for e_name in ("get_latest_version_id", "add_version_by_parent_version_id", "set_latest_version_id"):
-        hb = F.bodies.get("server::local::LocalServer::" + e_name)
+    R.floor("A1", "statement helpers of the local add_version", len(helpers_seen), 3)
+    for hname in sorted(helpers_seen):
+        hb = F.bodies.get(hname)
+        e_name = hname.split("::")[-1]
         if hb is None:
-            R.missing("A1", "LocalServer::" + e_name)
             continue
-        bad = [n_ for (_i, t) in cfg_of(hb).calls() for n_ in call_names(t) if re.search(r"Transaction::<'.*>::commit$|Connection>?::transaction|LocalServer::txn$", n_)]
+        bad = [n_ for (_i, t) in cfg_of(hb).calls() for n_ in call_names(t) if re.search(r"Transaction::<'.*>::commit$|Connection>?::transaction", n_)]
         if bad:
             R.violation("A1", hb["path"], "helper-transaction", "%s uses its own transaction (%s)" % (e_name, bad[0]), where(hb))
         else:
@@ -424,10 +474,15 @@ def rule_GI(F, R):
             continue
         n += 1
         w = where(b, p.blocks[-1])
-        push = [e for e in p.events if e["callee"].endswith("GitSyncServer::push")]
-        commit = [e for e in p.events if e["callee"].endswith("::stage_and_commit")]
-        wfile = [e for e in p.events if e["callee"].endswith("add_version_by_parent_version_id")]
-        wmeta = [e for e in p.events if e["callee"].endswith("GitSyncServer::write_meta")]
+        pushers = {roles.norm(x) for x in roles.git_cmd_fns(F, "push")}
+        committers = {roles.norm(x) for x in roles.git_cmd_fns(F, "commit")}
+        push = [e for e in p.events if roles.norm(e["callee"]) in pushers]
+        commit = [e for e in p.events if roles.norm(e["callee"]) in committers]
+
+        def _reaches(e, rx):
+            return e["callee"] in F.bodies and e["callee"].startswith("server::gitsync") and roles.cone_reaches(F, e["callee"], lambda t: any(re.search(rx, n_) for n_ in call_names(t)))
+        wfile = [e for e in p.events if e not in commit and e not in push and _reaches(e, r"^std::fs::write$")]
+        wmeta = [e for e in p.events if e not in commit and e not in push and e not in wfile and _reaches(e, r"^serde_json::(ser::)?to_writer")]
         pushed_true = any(a[0] == "val" and _has(a[1], lambda z: z[0] == "C" and push and z[1] == push[0]["id"]) and o is True for (a, o, _bb) in p.atoms)
         if len(push) != 1 or not pushed_true:
             R.violation("GI", b["owner_fn"], "ok-without-push", "AddVersionResult::Ok is returned on a path where push() did not return true: an acknowledged version that is not on the shared remote lets another replica give the same parent a second child", w)
@@ -479,7 +534,8 @@ def rule_GC(F, R):
         R.missing("GC", "git get_child_version")
     else:
         c = cfg_of(b)
-        rr = calls_matching(c, r"GitSyncServer::reset_to_remote$")
+        fetchers = {roles.norm(x) for x in roles.git_cmd_fns(F, "fetch")}
+        rr = [(i, t) for i, t in c.calls() if any(roles.norm(n_) in fetchers for n_ in call_names(t))]
         sites = agg_sites(c, "GetVersionResult", "NoSuchVersion")
         if not sites or not rr:
             R.missing("GC", "NoSuchVersion construction / reset_to_remote call in git get_child_version")
@@ -488,12 +544,18 @@ def rule_GC(F, R):
                 R.ok("GC", "NoSuchVersion only after reset_to_remote", where(b, sp=st["sp"]))
             else:
                 R.violation("GC", b["owner_fn"], "no-such-version-from-local-state", "NoSuchVersion can be answered from the local clone's state without fetching the remote: a child pushed by another replica is reported as missing", where(b, sp=st["sp"]))
-    ib = F.bodies.get("server::gitsync::GitSyncServer::init_repo")
+    cleaners = {roles.norm(x) for x in roles.git_cmd_fns(F, "clean")}
+    ib = None
+    for q in F.reachable_from(["server::gitsync::GitSyncServer::new"]):
+        qb = F.bodies[q]
+        if "gitsync" in q and roles.norm(F.owner(q)) not in cleaners and roles.norm(F.owner(q)) not in {roles.norm(x) for x in roles.git_cmd_fns(F, "fetch")}:
+            if any(any(roles.norm(n_) in cleaners for n_ in call_names(t)) for (_i, t) in cfg_of(qb).calls()):
+                ib = qb
     if ib is None:
-        R.missing("GC", "GitSyncServer::init_repo")
+        R.missing("GC", "the function on the open path of the git backend that removes stray files (`git clean`)")
         return
     c = cfg_of(ib)
-    cl = calls_matching(c, r"::clean_stray_files$")
+    cl = [(i, t) for i, t in c.calls() if any(roles.norm(n_) in cleaners for n_ in call_names(t))]
     if not cl:
         R.violation("GC", ib["path"], "no-stray-file-clean", "init_repo does not remove stray files left by an interrupted write", where(ib))
         return
